@@ -3,10 +3,13 @@ package c02
 import (
 	"errors"
 	"fmt"
+	"os"
+	"path/filepath"
 	"sort"
 	"strconv"
 	"strings"
 	"testing"
+	"time"
 
 	"pgregory.net/rapid"
 
@@ -22,6 +25,9 @@ type c02Query struct {
 	F     *model.Filter `json:"f"`
 	Start uint64        `json:"start"`
 	End   uint64        `json:"end"`
+	// Widen: after this (narrow-window) query has been answered twice, wait for the persistent-query
+	// results it may leave behind and run the same expression over the whole time range
+	Widen bool `json:"widen,omitempty"`
 }
 
 type c02Case struct {
@@ -36,6 +42,10 @@ var c02Profiles = []gen.Profile{gen.PInt, gen.PInt, gen.PFloat, gen.PBool, gen.P
 func genC02(t *rapid.T) *c02Case {
 	ds := gen.GenDataset(t, gen.DatasetOpts{MaxEvents: pt.Scale(40, 150), MaxCols: 5, Profiles: c02Profiles, NullPct: 3})
 	cs := &c02Case{DS: ds, Layout: gen.GenLayout(t, len(ds.Events))}
+	if rapid.IntRange(0, 2).Draw(t, "staggered") == 0 {
+		// per-block time windows that overlap and nest: blocks of a segment are then not in time order
+		gen.StaggerTimestamps(t, ds.Events, cs.Layout)
+	}
 	names, vals := gen.FilterColumns(ds)
 	lo, hi := tsBounds(ds.Events)
 	nq := rapid.IntRange(1, pt.Scale(6, 12)).Draw(t, "nQueries")
@@ -52,6 +62,10 @@ func genC02(t *rapid.T) *c02Case {
 		case 1: // just outside one boundary
 			a := ds.Events[rapid.IntRange(0, len(ds.Events)-1).Draw(t, "ra")].Ts
 			q.Start = a + 1
+		}
+		lo0, hi0 := tsBounds(ds.Events)
+		if (q.Start > lo0 || q.End < hi0) && rapid.IntRange(0, 1).Draw(t, "widen") == 0 {
+			q.Widen = true
 		}
 		cs.Queries = append(cs.Queries, q)
 	}
@@ -135,13 +149,29 @@ func checkC02(cs *c02Case, o *pt.Obs) error {
 	if rots >= 1 {
 		o.Class("rotated")
 	}
-	return pt.WithWorker(sut.Options{}, func(c *sut.Client) error {
+	dataDir := pt.NewDataDir()
+	defer pt.CleanupDataDir(dataDir)
+	return pt.WithWorker(sut.Options{DataDir: dataDir}, func(c *sut.Client) error {
 		if err := ingest(c, "c02idx", evs, cs.Layout); err != nil {
 			return err
 		}
 		for qi, q := range cs.Queries {
 			if err := checkOneQuery(c, cs, qi, q, o); err != nil {
 				return err
+			}
+			if q.Widen {
+				// same expression again (a repeated filter is kept as a persistent query and its match
+				// results are written to disk in the background), then over the whole time range
+				if err := checkOneQuery(c, cs, qi, q, o); err != nil {
+					return fmt.Errorf("second run: %v", err)
+				}
+				waitForPqmr(dataDir, 1200*time.Millisecond)
+				lo, hi := tsBounds(evs)
+				wide := c02Query{F: q.F, Start: lo - 1, End: hi + 1}
+				if err := checkOneQuery(c, cs, qi, wide, o); err != nil {
+					return fmt.Errorf("after the same expression ran over [%d,%d]: %v", q.Start, q.End, err)
+				}
+				o.Class("narrow_then_wide")
 			}
 		}
 		return nil
@@ -447,3 +477,34 @@ func diffSets(a, b vidSet) string {
 }
 
 func TestC02(t *testing.T) { pt.RunProp(t, "C02", genC02, checkC02) }
+
+// waitForPqmr waits until the number of persistent-query result files under the data directory has stopped
+// growing (they are written in the background after a query), at most max. Waiting too little can only
+// make the check miss something, never fail.
+func waitForPqmr(dataDir string, max time.Duration) {
+	count := func() int {
+		n := 0
+		_ = filepath.Walk(dataDir, func(p string, info os.FileInfo, err error) error {
+			if err == nil && !info.IsDir() && strings.HasSuffix(p, ".pqmr") {
+				n++
+			}
+			return nil
+		})
+		return n
+	}
+	deadline := time.Now().Add(max)
+	last, stable := count(), 0
+	for time.Now().Before(deadline) {
+		time.Sleep(60 * time.Millisecond)
+		n := count()
+		if n == last && n > 0 {
+			stable++
+			if stable >= 3 {
+				return
+			}
+		} else {
+			stable = 0
+		}
+		last = n
+	}
+}
